@@ -17,44 +17,67 @@ from core import vloop                                  # noqa: F401
 import tornado.locks, tornado.queues, tornado.gen, tornado.ioloop, tornado.platform.asyncio   # noqa: F401
 
 ID = "C33"
-LEAN_TARGETS = ["TornadoModel.C33.Props"]
+LEAN_TARGETS = ["TornadoModel.C33.Props", "TornadoModel.C33.TasksProps"]
 _T = "TornadoModel.C33."
 THEOREMS = [_T + n for n in (
     "inv_after", "permits_conserved", "outstanding_le_initial", "bounded_value_le", "bounded_releases_le_grants",
     "no_idle_permit", "no_lost_wakeup", "fifo_among_live", "dead_never_granted", "grant_only_live",
     "bounded_release_raises", "lock_release_raises", "bounded_over_release_raises", "gc_preserves_abs",
     "deadline_times_out", "refines_spec", "refines_spec_state",
+)] + [_T + "Tasks." + n for n in (
+    # context-manager layer (Tasks.lean): every history of calls over workers cancelled at any point
+    "tasks_inv", "tasks_no_idle_permit", "tasks_bounded_value_le", "tasks_waiters_sorted",
 )]
 TRUSTED = [
     "asyncio event loop ordering as abstracted by the model's drain: ready callbacks (done-callbacks, FIFO) run before "
     "timers that are due; due timers fire in deadline order; Future.cancel/set_result/set_exception settle at most once",
     "harness/core/vloop.py (virtual clock, fire_next_timer) and the Rig in harness/props/c33.py",
+    "asyncio Task protocol as abstracted by Tasks.lean: Task.cancel cancels the awaited future if pending, else sets "
+    "_must_cancel for the already scheduled step; a task resumes one loop iteration after its future is resolved and reads "
+    "the future's state at that time; gen.Runner resumes a coroutine one callback after the yielded future is resolved",
+    "audit_tasks in harness/props/c33.py (the property statement recomputed from the implementation's observations for the "
+    "context-manager cases; Python, not Lean)",
 ]
 ASSUMPTIONS = [
     "deadlines of simultaneously scheduled timers are pairwise distinct (the order of equal deadlines is an artefact of "
     "asyncio's heap and is not modelled); generators never reuse a deadline",
     "the application only touches the futures through cancel(); it does not set results on them itself",
     "initial value >= 0 (the constructor rejects negatives); `_timeouts` may be preset by the harness to reach the collector",
+    "legacy `with (yield lock.acquire())` workers (gen.coroutine) are never cancelled and no future they are blocked on is "
+    "cancelled: gen.Runner.run lets CancelledError (a BaseException) escape into the loop's exception handler and the "
+    "suspended generator is only finalised by the garbage collector -- gen.py behaviour outside C33",
+    "at most one timed acquire per application call (two timers created in one call with deadlines already in the past get "
+    "equal real deadlines under `timedelta` arguments)",
 ]
 RULE = ("op sequences (<=25 ops, <=8 acquires) over Semaphore/BoundedSemaphore/Lock with timed and untimed acquires, "
         "release (direct or through the returned context manager), fire-next-timer, cancel, and same-iteration races; "
         "non-trivial = at least one waiter blocked and at least one of {timeout, cancel} and one grant by release happened; "
-        "distinct by canonical JSON")
+        "distinct by canonical JSON; PLUS context-manager cases (`tops`): <=18 application calls of 1-3 sub-calls each "
+        "(acquire, release, cancel, spawn an `async with` task, spawn a legacy `with (yield acquire(timeout))` coroutine, end a "
+        "worker's body, Task.cancel now or one iteration later) made directly or racing the earliest timer; non-trivial there = "
+        "a worker blocked, a timeout/cancel happened and a worker entered its body in a call")
 EXHAUSTIVE = {"quick": True, "thorough": True}
 CLAUSES = {
-    "granted and unreleased permits never exceed the initial value": "permits_conserved + outstanding_le_initial (+ bounded_value_le)",
-    "granted waiters are served in arrival order skipping only timed-out/cancelled ones": "fifo_among_live (+ inv_after: deque sorted by arrival)",
-    "a permit is never left unused while a live waiter waits": "no_idle_permit + no_lost_wakeup",
+    "granted and unreleased permits never exceed the initial value": "acquire()/release() API: permits_conserved + outstanding_le_initial (+ bounded_value_le); "
+        "context-manager API (async with / with (yield acquire()), workers cancelled at any point): Tasks.tasks_bounded_value_le proved, the worker-level "
+        "accounting Tasks.tasks_outstanding_goal is tie only: Tasks.lean = implementation on every case + audit_tasks oracle (outstanding <= initial)",
+    "granted waiters are served in arrival order skipping only timed-out/cancelled ones": "fifo_among_live (+ inv_after: deque sorted by arrival); "
+        "context-manager API: Tasks.tasks_waiters_sorted + Tasks.tasks_inv (release is the same popLive), order of grants checked by audit_tasks",
+    "a permit is never left unused while a live waiter waits": "no_idle_permit + no_lost_wakeup; context-manager API: Tasks.tasks_no_idle_permit "
+        "(after every history, incl. a task cancelled after release() granted it and before it resumed: the fixed __aenter__ gives the permit back)",
     "timed-out or cancelled waiters never obtain one": "dead_never_granted + grant_only_live (+ deadline_times_out: a live waiter whose deadline is reached does time out)",
     "releasing beyond the initial value (bounded) or an unlocked lock raises": "bounded_release_raises + lock_release_raises + bounded_over_release_raises + bounded_releases_le_grants",
     "garbage collection of timed-out waiters is unobservable": "gc_preserves_abs",
+    "context-manager layer agrees with Model.step when there are no workers": "tie only: Tasks.lift_agrees_goal, compared on every Model case (field lift_agrees)",
     "checked against a sequential reference model": "refines_spec (output-trace equality Model = Spec for every history) + refines_spec_state; Spec is also the oracle applied to the implementation on every case",
 }
 PARALLEL = True
 CASE_TIMEOUT = 120     # generous: on a loaded machine a forked worker's first case was measured at 6 s wall for 0.4 s CPU
 LEVEL_NOTE = ("exhaustive sub-domains: quick = every op sequence of length 3 over the 9-letter alphabet _ALPHA for 6 class/value "
               "configurations + length 4 over _ALPHA7 for 4 configurations; thorough = length 4 over _ALPHA (6 configurations), length 5 "
-              "over _ALPHA7 (3 configurations), length 6 over {acqT,acqN,rel,fire,raceRel} for Semaphore(1) and Lock")
+              "over _ALPHA7 (3 configurations), length 6 over {acqT,acqN,rel,fire,raceRel} for Semaphore(1) and Lock; context-manager "
+              "cases: quick = length 3 over the 13-letter _TALPHA (3 configurations), length 4 over _TALPHA8 (2), length 3 over _TALPHA_LG (2); "
+              "thorough = length 4 over _TALPHA (2), length 4 / 5 over _TALPHA8 (3 / 1), length 4 over _TALPHA_LG (2)")
 
 # ------------------------------------------------------------------------------------------ shared rig
 
@@ -224,6 +247,8 @@ def _model_op(op):
 
 
 def run_impl(case):
+    if "tops" in case:
+        return run_impl_tasks(case)
     from tornado import locks
     rig = Rig()
     cls, n = case["cls"], case["n"]
@@ -270,19 +295,32 @@ def run_impl(case):
 
 
 def model_requests(case, impl):
-    return [line(ID, "run", atom(case["cls"]), case["n"], case.get("t0", 0), [_model_op(o) for o in case["ops"]])]
+    if "tops" in case:
+        return [line(ID, "trun", atom(case["cls"]), case["n"], case.get("t0", 0), [_wire_top(o) for o in case["tops"]])]
+    ops = [_model_op(o) for o in case["ops"]]
+    # second line: the same ops through the Tasks layer (iteration-structured drain) -- must agree with Model.run
+    return [line(ID, "run", atom(case["cls"]), case["n"], case.get("t0", 0), ops),
+            line(ID, "lift", atom(case["cls"]), case["n"], case.get("t0", 0), ops)]
 
 
 def model_result(case, replies):
     outs, states = reply_vals(replies[0])
-    return {"outs": outs, "states": states, "cberrors": []}
+    if "tops" in case:
+        return {"outs": outs, "states": states, "cberrors": []}
+    louts, lstates = reply_vals(replies[1])
+    flat = [[o[0][0], o[1], o[3], o[4], o[5], o[6]] for o in louts]
+    return {"outs": outs, "states": states, "cberrors": [], "lift_agrees": flat == outs and lstates == states}
 
 
 def impl_view(case, impl):
-    return impl
+    if "tops" in case:
+        return {"outs": [o[:8] for o in impl["outs"]], "states": impl["states"], "cberrors": impl["cberrors"]}
+    return {**impl, "lift_agrees": True}
 
 
 def spec_requests(case, impl):
+    if "tops" in case:
+        return []
     return [line(ID, "spec", atom(case["cls"]), case["n"], [_model_op(o) for o in case["ops"]])]
 
 
@@ -294,6 +332,8 @@ def _res(r):
 def spec_violation(case, impl, replies):
     if impl["cberrors"]:
         return "op ? callback raised: %s" % impl["cberrors"][0]
+    if "tops" in case:
+        return audit_tasks(case, impl)
     want = reply_vals(replies[0])[0]
     held = 0   # granted and not yet released
     cap = 1 if case["cls"] == "lock" else case["n"]
@@ -310,7 +350,210 @@ def spec_violation(case, impl, replies):
     return None
 
 
+# ------------------------------------------------------------------------------------------ context-manager paths
+# case["tops"]: [["call", [sub,…]] | ["fire"] | ["race", [sub,…]]]; sub = ["acq", d|None, mode] | ["rel"] | ["relCm", w] |
+# ["cancel", w] | ["spawnAw"] | ["spawnLg", d|None, mode] | ["exit", t] | ["tcancel", t] | ["soonTcancel", t]   (Tasks.lean)
+
+def _wire_sub(c):
+    k = c[0]
+    if k in ("acq", "spawnLg"):
+        return [atom(k), c[1]]
+    return wire_op(c)
+
+
+def _wire_top(o):
+    if o[0] == "fire":
+        return [atom("fire")]
+    return [atom(o[0]), [_wire_sub(c) for c in o[1]]]
+
+
+def _worker_state(fut, entered):
+    if not fut.done():
+        return "I" if entered else "W"
+    if fut.cancelled():
+        return "C"
+    e = fut.exception()          # also marks the exception as retrieved
+    if e is None:
+        return "OK"
+    if isinstance(e, asyncio.CancelledError):
+        return "C"
+    return {"TO": "TO", "ValueError": "VE", "RuntimeError": "RE"}.get(exc_name(e), exc_name(e))
+
+
+def run_impl_tasks(case):
+    from tornado import locks, gen
+    rig = Rig()
+    lp = rig.lp
+    cls, n = case["cls"], case["n"]
+    if cls == "sem":
+        obj = locks.Semaphore(n); blk = obj
+    elif cls == "bounded":
+        obj = locks.BoundedSemaphore(n); blk = obj
+    else:
+        obj = locks.Lock(); blk = obj._block
+    blk._timeouts = case.get("t0", 0)
+
+    def conv(r):
+        return 0 if isinstance(r, locks._ReleasingContextManager) else 99
+
+    owners, cur = [], [None]
+    orig_acquire = blk.acquire
+
+    def tracked(timeout=None):          # every acquire future, whoever asks for it, in creation order
+        f = orig_acquire(timeout)
+        rig.track(f, conv)
+        owners.append(cur[0]); cur[0] = None
+        return f
+    blk.acquire = tracked
+
+    workers, gates, kinds, entered, enters = [], [], [], set(), []
+
+    async def aw_worker(t):
+        cur[0] = t
+        async with obj:
+            entered.add(t); enters.append(t)
+            await gates[t]
+
+    @gen.coroutine
+    def lg_worker(t, to):
+        cur[0] = t
+        with (yield (obj.acquire(to) if to is not None else obj.acquire())):
+            entered.add(t); enters.append(t)
+            yield gates[t]
+
+    def do_sub(c):
+        k = c[0]
+        try:
+            if k == "acq":
+                to = rig.timeout_arg(c[1], c[2] if len(c) > 2 else "rel")
+                if to is not None:
+                    obj.acquire(to)
+                else:
+                    obj.acquire()
+                return "U"
+            if k == "rel":
+                obj.release()
+                return "U"
+            if k == "relCm":
+                fu = rig.futs[c[1]] if c[1] < len(rig.futs) else None
+                if fu is not None and fu.done() and not fu.cancelled() and fu.exception() is None:
+                    fu.result().__exit__(None, None, None)
+                else:
+                    obj.release()
+                return "U"
+            if k == "cancel":
+                return rig.futs[c[1]].cancel() if c[1] < len(rig.futs) else False
+            if k == "spawnAw":
+                t = len(workers)
+                gates.append(lp.create_future()); kinds.append("aw")
+                workers.append(lp.create_task(aw_worker(t)))
+                return "U"
+            if k == "spawnLg":
+                t = len(workers)
+                to = rig.timeout_arg(c[1], c[2] if len(c) > 2 else "rel")
+                gates.append(lp.create_future()); kinds.append("lg")
+                workers.append(None)
+                workers[t] = lg_worker(t, to)
+                return "U"
+            if k == "exit":
+                if c[1] < len(gates) and not gates[c[1]].done():
+                    gates[c[1]].set_result(None)
+                return "U"
+            if k == "tcancel":
+                if c[1] < len(workers) and kinds[c[1]] == "aw":
+                    return workers[c[1]].cancel()
+                return False
+            if k == "soonTcancel":       # looked up when the callback runs (the worker may be spawned later in this call)
+                lp.call_soon(lambda t=c[1]: t < len(workers) and kinds[t] == "aw" and workers[t].cancel())
+                return "U"
+        except Exception as e:
+            return exc_name(e)
+        raise AssertionError(c)
+
+    outs = []
+    for op in case["tops"]:
+        pre_en = len(enters)
+        if op[0] == "fire":
+            d, evs = rig.fire()
+            r = [d]
+        else:
+            r, evs = rig.call(lambda op=op: [do_sub(c) for c in op[1]], race=(op[0] == "race"))
+        outs.append([r, evs, enters[pre_en:], blk._value, len(blk._waiters), blk._timeouts, rig.ntimers(),
+                     [_worker_state(w, t in entered) for t, w in enumerate(workers)],
+                     [rig.state(i, conv) for i in range(len(rig.futs))]])      # [8]: oracle only (impl_view drops it)
+    res = {"outs": outs, "states": [rig.state(i, conv) for i in range(len(rig.futs))], "cberrors": rig.errors(),
+           "owners": list(owners), "kinds": list(kinds)}
+    # leave nothing pending on the shared loop
+    blk.acquire = orig_acquire
+    for w, k in zip(workers, kinds):
+        if k == "aw" and not w.done():
+            w.cancel()
+    for g in gates:
+        if not g.done():
+            g.set_result(None)
+    lp.drain()
+    for w in workers:
+        if w.done() and not w.cancelled():
+            w.exception()
+    return res
+
+
+def audit_tasks(case, impl):
+    """the property statement applied to what the implementation did (no model involved): permits are conserved,
+    never over-granted, never idle while a live waiter waits, granted in arrival order, never released beyond the
+    initial value.  A worker that has finished holds nothing: if it had obtained a permit and ended normally or by
+    cancellation it has given the permit back (`async with` / `with` guarantee the release); if its release raised,
+    nothing came back."""
+    cap = 1 if case["cls"] == "lock" else case["n"]
+    owners = impl["owners"]
+    fst = {}                     # future id -> settled state
+    grants = 0
+    direct_rel = 0
+    prev_pending = set()
+    for i, (op, o) in enumerate(zip(case["tops"], impl["outs"])):
+        res, evs, enters, wstates, fstates = o[0], o[1], o[2], o[7], o[8]
+        name = op[0]
+        for pos, (w, st) in enumerate(evs):
+            if w in fst:
+                return "op %d %s: future %d resolved twice (%r then %r)" % (i, name, w, fst[w], st)
+            fst[w] = st
+            if isinstance(st, list):
+                grants += 1
+                early = {x for x, _ in evs[:pos]}
+                for w2 in range(w):
+                    if w2 not in fst and w2 not in early:
+                        return "op %d %s: future %d granted while the older future %d is still waiting (skipped the queue)" % (i, name, w, w2)
+        for w, st in enumerate(fstates):
+            if (st == "P") != (w not in fst):
+                return "op %d %s: future %d is %r but its resolution log says %r" % (i, name, w, st, fst.get(w, "P"))
+        if name != "fire":
+            for c, r in zip(op[1], res):
+                if c[0] in ("rel", "relCm") and r == "U":
+                    direct_rel += 1
+        given_back = 0
+        for t, ws in enumerate(wstates):
+            ws_granted = any(owners[w] == t and isinstance(fst.get(w), list) for w in range(len(owners)))
+            if ws == "OK" and not ws_granted:
+                return "op %d %s: worker %d ran its body without ever being granted a permit" % (i, name, t)
+            if ws == "I" and not ws_granted:
+                return "op %d %s: worker %d is inside its body without a permit" % (i, name, t)
+            if ws in ("OK", "C") and ws_granted:
+                given_back += 1
+        held = grants - direct_rel - given_back
+        if held > cap:
+            return "op %d %s: %d permits outstanding, initial value %d" % (i, name, held, cap)
+        if case["cls"] != "sem" and held < 0:
+            return "op %d %s: released %d times more often than granted and no release raised" % (i, name, -held)
+        if cap - held > 0 and "P" in fstates:
+            return "op %d %s: %d permit(s) left unused while future %d is still waiting" % (i, name, cap - held, fstates.index("P"))
+    return None
+
+
 def nontrivial(case, impl):
+    if "tops" in case:
+        evs = [e for o in impl["outs"] for e in o[1]]
+        return (any("W" in o[7] for o in impl["outs"]) and any(e[1] in ("TO", "C") for e in evs)
+                and any(o[2] for op, o in zip(case["tops"], impl["outs"]) if op[0] != "fire"))
     evs = [e for o in impl["outs"] for e in o[1]]
     blocked = any(o[3] > 0 for o in impl["outs"])
     dead = any(e[1] in ("TO", "C") for e in evs)
@@ -319,7 +562,31 @@ def nontrivial(case, impl):
     return blocked and dead and by_release
 
 
+def _stats_tasks(case, impl):
+    out = ["cls:" + case["cls"], "tasks", "enum" if case.get("enum") else "random"]
+    prev = []
+    for op, o in zip(case["tops"], impl["outs"]):
+        out.append("top:%s:%d" % (op[0], len(op[1]) if op[0] != "fire" else 0))
+        for c in (op[1] if op[0] != "fire" else []):
+            out.append("sub:" + c[0])
+        for r in o[0]:
+            if isinstance(r, str) and r.endswith("Error"):
+                out.append("err:" + r)
+        for t, ws in enumerate(o[7]):
+            was = prev[t] if t < len(prev) else "new"
+            if ws != was:
+                out.append("worker:%s->%s" % (was, ws))
+                granted = any(impl["owners"][w] == t and isinstance(impl["outs"][-1][8][w], list)
+                              for w in range(len(impl["owners"])))
+                if ws == "C" and was == "W" and granted:
+                    out.append("worker:cancelled-after-grant-before-resume")
+        prev = o[7]
+    return out
+
+
 def stats(case, impl):
+    if "tops" in case:
+        return _stats_tasks(case, impl)
     out = ["cls:" + case["cls"], "len:%02d" % (len(case["ops"]) // 5 * 5), "enum" if case.get("enum") else "random"]
     for op, o in zip(case["ops"], impl["outs"]):
         out.append("op:" + op[0])
@@ -335,11 +602,28 @@ def stats(case, impl):
 def signature(case, impl, why):
     m = re.match(r"op \S+ (\w+): ", why)
     kind = "callback-error" if "callback raised" in why else ("result" if "says result" in why else
-                                                             "outstanding" if "outstanding" in why else "resolution")
+                                                             "outstanding" if "outstanding" in why else
+                                                             "idle-permit" if "left unused" in why else
+                                                             "queue-order" if "skipped the queue" in why else
+                                                             "over-release" if "more often than granted" in why else
+                                                             "worker" if ": worker " in why else "resolution")
     return "%s/%s/%s" % (case["cls"], m.group(1) if m else "?", kind)
 
 
 def shrink(case):
+    if "tops" in case:
+        tops = case["tops"]
+        for i in range(len(tops)):
+            yield {**case, "tops": tops[:i] + tops[i + 1:]}
+            if tops[i][0] != "fire":
+                for j in range(len(tops[i][1])):
+                    if len(tops[i][1]) > 1:
+                        yield {**case, "tops": tops[:i] + [[tops[i][0], tops[i][1][:j] + tops[i][1][j + 1:]]] + tops[i + 1:]}
+                if len(tops[i][1]) > 1:      # split a multi-call into single calls
+                    yield {**case, "tops": tops[:i] + [["call", [c]] for c in tops[i][1]] + tops[i + 1:]}
+        if case.get("t0"):
+            yield {**case, "t0": 0}
+        return
     ops = case["ops"]
     for i in range(len(ops)):
         yield {**case, "ops": ops[:i] + ops[i + 1:]}
@@ -426,20 +710,137 @@ def _gc_case(rng):
     return c
 
 
+# ---- context-manager paths: enumerated and random op sequences over workers
+_TALPHA = ["sA", "acqN", "acqT", "rel", "fire", "x0", "x1", "k0", "k1", "rel+k1", "x0+sk1", "c1", "race[x0]"]
+_TALPHA8 = ["sA", "acqN", "rel", "x0", "k1", "rel+k0", "rel+k1", "x0+sk1"]
+_TALPHA_LG = ["sL", "sLT", "sA", "acqN", "rel", "fire", "x0", "x1", "k1"]     # legacy workers: no cancel of futures
+
+
+def _enum_tseq(letters):
+    tops, k = [], 0
+    for a in letters:
+        kind, body = "call", a
+        if a.startswith("race["):
+            kind, body = "race", a[5:-1]
+        if body == "fire":
+            tops.append(["fire"])
+            continue
+        subs = []
+        for b in body.split("+"):
+            if b == "sA":
+                subs.append(["spawnAw"])
+            elif b == "sL":
+                subs.append(["spawnLg", None, "rel"])
+            elif b == "sLT":
+                subs.append(["spawnLg", _DL[k], "rel" if k % 2 else "abs"]); k += 1
+            elif b == "acqN":
+                subs.append(["acq", None, "rel"])
+            elif b == "acqT":
+                subs.append(["acq", _DL[k], "rel" if k % 2 else "abs"]); k += 1
+            elif b == "rel":
+                subs.append(["rel"])
+            elif b[0] == "x":
+                subs.append(["exit", int(b[1:])])
+            elif b.startswith("sk"):
+                subs.append(["soonTcancel", int(b[2:])])
+            elif b[0] == "k":
+                subs.append(["tcancel", int(b[1:])])
+            elif b[0] == "c":
+                subs.append(["cancel", int(b[1:])])
+            else:
+                raise AssertionError(a)
+        tops.append([kind, subs])
+    return tops
+
+
+def _enum_tcases(L, alpha, configs):
+    for cls, n in configs:
+        for letters in itertools.product(alpha, repeat=L):
+            yield {"cls": cls, "n": n, "t0": 0, "tops": _enum_tseq(letters), "enum": True}
+
+
+def _rand_tcase(rng):
+    cls = rng.choice(["sem", "sem", "bounded", "bounded", "lock", "lock"])
+    n = 1 if cls == "lock" else rng.choice([0, 1, 1, 1, 2, 2, 3])
+    t0 = rng.choice([0, 0, 0, 0, 98, 99, 100])
+    legacy = rng.random() < 0.35          # legacy workers and cancellation of futures exclude each other (ASSUMPTIONS)
+    pool = list(range(0, 60))
+    rng.shuffle(pool)
+    nw, nf = [0], [0]                      # workers spawned, upper bound of futures created
+
+    def deadline():
+        d = pool.pop() if rng.random() < 0.5 else min(pool)
+        if d in pool:
+            pool.remove(d)
+        return d
+
+    def sub(timed_ok):
+        x = rng.random()
+        if x < 0.22:
+            nw[0] += 1; nf[0] += 1
+            if legacy and rng.random() < 0.5:
+                if timed_ok[0] and rng.random() < 0.5:
+                    timed_ok[0] = False
+                    return ["spawnLg", deadline(), rng.choice(["abs", "rel"])]
+                return ["spawnLg", None, "rel"]
+            return ["spawnAw"]
+        if x < 0.34:
+            nf[0] += 1
+            if timed_ok[0] and rng.random() < 0.5:
+                timed_ok[0] = False
+                return ["acq", deadline(), rng.choice(["abs", "rel"])]
+            return ["acq", None, "rel"]
+        if x < 0.50:
+            return ["relCm", rng.randrange(0, nf[0] + 1)] if rng.random() < 0.2 else ["rel"]
+        if x < 0.68:
+            return ["exit", rng.randrange(0, nw[0] + 1)]
+        if x < 0.84:
+            return ["tcancel", rng.randrange(0, nw[0] + 1)]
+        if x < 0.92:
+            return ["soonTcancel", rng.randrange(0, nw[0] + 1)]
+        if legacy:
+            return ["rel"]
+        return ["cancel", rng.randrange(0, nf[0] + 1)]
+
+    tops = []
+    for _ in range(rng.randint(2, 18)):
+        x = rng.random()
+        if x < 0.10:
+            tops.append(["fire"])
+            continue
+        kind = "race" if x < 0.22 else "call"
+        nsub = rng.choice([1, 1, 1, 2, 2, 3])
+        timed_ok = [True]
+        if nw[0] + nsub > 7:
+            tops.append(["fire"])
+            continue
+        tops.append([kind, [sub(timed_ok) for _ in range(nsub)]])
+    return {"cls": cls, "n": n, "t0": t0, "tops": tops}
+
+
 def gen_cases(rng, tier):
     if tier == "quick":
         yield from _enum_cases(3)
         yield from _enum_cases(4, alpha=_ALPHA7, configs=[("sem", 1), ("bounded", 1), ("bounded", 2), ("lock", 1)])
-        n_rand = 4000
+        yield from _enum_tcases(3, _TALPHA, [("sem", 1), ("bounded", 1), ("lock", 1)])
+        yield from _enum_tcases(4, _TALPHA8, [("sem", 1), ("lock", 1)])
+        yield from _enum_tcases(3, _TALPHA_LG, [("bounded", 1), ("lock", 1)])
+        n_rand, n_trand = 4000, 2500
     elif tier == "thorough":
         yield from _enum_cases(4)
         yield from _enum_cases(5, alpha=_ALPHA7, configs=[("sem", 1), ("bounded", 2), ("lock", 1)])
         yield from _enum_cases(6, alpha=["acqT", "acqN", "rel", "fire", "raceRel"], configs=[("sem", 1), ("lock", 1)])
-        n_rand = 30000
+        yield from _enum_tcases(4, _TALPHA, [("sem", 1), ("lock", 1)])
+        yield from _enum_tcases(4, _TALPHA8, [("bounded", 1), ("sem", 2), ("bounded", 2)])
+        yield from _enum_tcases(5, _TALPHA8, [("sem", 1)])
+        yield from _enum_tcases(4, _TALPHA_LG, [("bounded", 1), ("lock", 1)])
+        n_rand, n_trand = 30000, 20000
     else:
-        n_rand = 4000
+        n_rand, n_trand = 4000, 4000
     for _ in range(n_rand):
         yield _rand_case(rng) if rng.random() < 0.85 else _gc_case(rng)
+    for _ in range(n_trand):
+        yield _rand_tcase(rng)
 
 
 def describe(case):
